@@ -6,7 +6,7 @@
 (*    filemode, indexTs, q : [untracked, ignored], report : [code, path, dir].. *)
 (* report is what Who (gix status / git status) printed for the region.        *)
 EXTENDS Status, TraceIO
-CONSTANTS BugNoRacy, BugShowReplacing, BugHideIgnored, BugKeepDirs   \* judge against a named defective design (classification only)
+CONSTANTS BugNoRacy, BugShowReplacing, BugHideIgnored, BugKeepDirs, BugDeleted   \* judge against a named defective design (classification only)
 
 VARIABLE l
 Init == l = 1
@@ -16,7 +16,7 @@ Spec == Init /\ [][Next]_l
 Judge(e) ==
   LET W == [entries |-> Range(e.entries), nodes |-> Range(e.nodes), trustctime |-> e.trustctime, checkstat |-> e.checkstat,
             filemode |-> e.filemode, indexTs |-> e.indexTs]
-  IN Range(e.report) = Report(W, e.q, [noracy |-> BugNoRacy, showreplacing |-> BugShowReplacing, hideignored |-> BugHideIgnored, keepdirs |-> BugKeepDirs])
+  IN Range(e.report) = Report(W, e.q, [noracy |-> BugNoRacy, showreplacing |-> BugShowReplacing, hideignored |-> BugHideIgnored, keepdirs |-> BugKeepDirs, deleted |-> BugDeleted])
 
 EventOk == l <= NRec => (Judge(Rec[l]) \/ PrintT(<<"REJECT", l>>))
 =============================================================================
